@@ -270,6 +270,11 @@ let run ~tier ~seed ~only acc =
     ([ [ ("a", "1"); ("m", "2"); ("z", "3") ]; [ ("a", "4"); ("n", "5"); ("z", "6") ]; [ ("a", "7"); ("o", "8"); ("z", "9") ];
        [ ("a", "10"); ("k", "11"); ("z", "12") ]; [ ("a", "13"); ("k", "14"); ("z", "15") ] ], { merge = true; fail_at = 0; dupsort = 0 }, Rd.Iter,
      [ Rd.Seek "b"; Rd.Next; Rd.Next; Rd.Next; Rd.Next; Rd.Next ]);
+    (* short keys that differ only by trailing NUL bytes (the empty key and "\000", "a" and "a\000"), every source order *)
+    ([ [ ("", "1"); ("a", "2") ]; [ ("\000", "3"); ("a\000", "4") ]; [ ("", "5"); ("\000", "6"); ("a", "7"); ("a\000", "8") ] ], { merge = true; fail_at = 0; dupsort = 0 }, Rd.Iter, nexts 6);
+    ([ [ ("\000", "3"); ("a\000", "4") ]; [ ("", "1"); ("a", "2") ]; [ ("", "5"); ("\000", "6"); ("a", "7"); ("a\000", "8") ] ], { merge = true; fail_at = 0; dupsort = 0 }, Rd.Iter, nexts 6);
+    ([ [ ("", "5"); ("\000", "6"); ("a", "7"); ("a\000", "8") ]; [ ("\000", "3"); ("a\000", "4") ]; [ ("", "1"); ("a", "2") ] ], { merge = true; fail_at = 0; dupsort = 0 }, Rd.Iter, nexts 6);
+    ([ [ ("a\000\000", "1") ]; [ ("a", "2") ]; [ ("a\000", "3") ]; [ ("a", "4"); ("a\000\000", "5") ] ], { merge = false; fail_at = 0; dupsort = 1 }, Rd.Iter, nexts 7);
     ([ [ ("k", "a") ]; [ ("k", "ab") ]; [ ("k", "abc") ]; [ ("", "x"); ("k", "b") ] ], { merge = false; fail_at = 0; dupsort = 2 }, Rd.Iter, nexts 6);
     ([ [ ("k", "a") ]; [ ("k", "ab") ]; [ ("k", "abc") ] ], { merge = true; fail_at = 2; dupsort = 0 }, Rd.Iter, nexts 3);
     ([ [ ("k", "a") ]; [ ("k", "ab") ]; [ ("k", "abc") ] ], { merge = true; fail_at = 1; dupsort = 0 }, Rd.Iter, nexts 3);
